@@ -161,9 +161,7 @@ end
 
 /-! ### what the reference reader `readDoc` (Spec/HaysonRead.lean) makes of the same documents
 
-The reference reader represents an EMPTY grid meta / column meta as an absent one (`readerImage`), and it
-takes the members of a grid meta and of a column meta as they stand, without setting a `"_kind":"dict"`
-member aside (`MetaUntagged`: the documents on which this makes no difference). -/
+The reference reader represents an EMPTY grid meta / column meta as an absent one (`readerImage`). -/
 
 mutual
 /-- the value with every empty grid meta / column meta replaced by an absent one -/
@@ -191,28 +189,5 @@ def readerImageRows : Rows → Rows
   | .cons r rs => .cons (readerImageTags r) (readerImageRows rs)
 end
 
-/-- an object without a `_kind` member -/
-def Untagged (j : Json) : Prop := ∀ mm, j = .obj mm → ∀ p ∈ mm.toList, p.1 ≠ s "_kind"
-
-/-- a column object whose `meta` is untagged -/
-def ColUntagged (c : Json) : Prop := ∀ cm, c = .obj cm → ∀ p ∈ cm.toList, p.1 = s "meta" → Untagged p.2
-
-mutual
-/-- at every depth, the `meta` of a grid object and of its column objects carries no `_kind` member -/
-def MetaUntagged : Json → Prop
-  | .arr xs => MetaUntaggeds xs
-  | .obj ms =>
-    ((s "_kind", Json.str (s "grid")) ∈ ms.toList →
-      (∀ p ∈ ms.toList, p.1 = s "meta" → Untagged p.2) ∧
-      (∀ p ∈ ms.toList, p.1 = s "cols" → ∀ cs, p.2 = .arr cs → ∀ c ∈ cs.toList, ColUntagged c)) ∧
-    MetaUntaggedM ms
-  | _ => True
-def MetaUntaggeds : Jsons → Prop
-  | .nil => True
-  | .cons j js => MetaUntagged j ∧ MetaUntaggeds js
-def MetaUntaggedM : Members → Prop
-  | .nil => True
-  | .cons _ j ms => MetaUntagged j ∧ MetaUntaggedM ms
-end
 
 end Hs.Spec.Hayson
